@@ -169,6 +169,11 @@ func (r *Reconciler) Reconcile(ctx context.Context, request reconcile.Request) (
 
 	reqLogger.V(1).Info("Updating ExtendedDaemonSetReplicaSet status")
 	err = r.updateReplicaSet(replicaSetInstance, newStatus)
+	if err == nil {
+		// the status is stored: report the errors of the strategy and of the pod creations / deletions
+		// instead of dropping them (they were only visible in the ReconcileError condition)
+		err = utilserrors.NewAggregate(errs)
+	}
 
 	// Garbage collect the failedPodsBackOff map once per minute,
 	// i.e. whenever the seconds [0,59] is less than the reconcile frequency
